@@ -168,6 +168,11 @@ type runner struct {
 	c     *core.Child
 	m     *model.Schema
 	facts schemaFacts
+	// defectSeen counts, per child, the reports of each confirmed defect
+	// class: only the first few become violation records (the child keeps at
+	// most 40 records, which must stay available for unexplained mismatches);
+	// every hit is counted in the feature histogram.
+	defectSeen map[string]int
 }
 
 // check runs one document through Do and compares with the expectation.
@@ -228,13 +233,14 @@ func (rn *runner) check(env *build.Env, u *introspect.Universe, text string, var
 	if rn.facts.abstract && rn.facts.marked {
 		c.Nontrivial(core.HashString(u.Model.SDL() + "\x00" + strings.Join(u.Model.Extra, ",") + "\x00" + text + "\x00" + harness.CanonArgs(vars) + "\x00" + strings.Join(order, ">")))
 	}
-	if len(rep.Mismatches) == 0 {
+	all := append(append([]introspect.Mismatch{}, rep.Defects...), rep.Mismatches...)
+	if len(all) == 0 {
 		return
 	}
 	// one violation per signature, with the first few witnesses
 	bySig := map[string][]introspect.Mismatch{}
 	var sigs []string
-	for _, mm := range rep.Mismatches {
+	for _, mm := range all {
 		if _, ok := bySig[mm.Sig]; !ok {
 			sigs = append(sigs, mm.Sig)
 		}
@@ -252,6 +258,11 @@ func (rn *runner) check(env *build.Env, u *introspect.Universe, text string, var
 		sig := sigPrefix + s
 		if strings.HasPrefix(s, "defect:") { // a confirmed conversion defect is the same defect in every history
 			sig = s
+			c.FeatureN("hit:"+s, int64(len(ms)))
+			rn.defectSeen[s]++
+			if rn.defectSeen[s] > 2 {
+				continue
+			}
 		}
 		c.Violation(sig, fmt.Sprintf("%s (%d such mismatches in this answer) at %s", ms[0].Msg, len(ms), ms[0].Path), d)
 	}
@@ -261,6 +272,7 @@ var inclForms = []string{"", "(includeDeprecated: true)", "(includeDeprecated: f
 
 func run(c *core.Child) {
 	nSchemas := c.Scale(25, 625)
+	defectSeen := map[string]int{}
 	for si := 0; si < nSchemas; si++ {
 		sr := c.RNG(1, uint64(si))
 		o := schemagen.DefaultOptions(sr)
@@ -271,7 +283,7 @@ func run(c *core.Child) {
 		standalone := extend(sr, m)
 		seed := sr.U64()
 		u := introspect.New(m)
-		rn := &runner{c: c, m: m, facts: facts(u)}
+		rn := &runner{c: c, m: m, facts: facts(u), defectSeen: defectSeen}
 		env, err := build.Build(m, seed)
 		if err != nil {
 			if c.Begin(fmt.Sprintf("s%d/build", si)) {
@@ -301,11 +313,9 @@ func run(c *core.Child) {
 			rn.check(env, u, testutil.IntrospectionQuery, nil, "", nil, "full")
 			c.Sample("full", map[string]interface{}{"schema": m.SDL(), "types": u.Names})
 		}
-		// (2) deeper ofType chains, includeDeprecated absent / true / false
-		for k, incl := range inclForms {
-			if begin(fmt.Sprintf("s%d/deep/%d", si, k)) {
-				rn.check(env, u, deepQuery(incl, 10), nil, "", nil, "deep"+incl)
-			}
+		// (2) deeper ofType chains; includeDeprecated absent / true / false by turns (every form also occurs in (3) and (4))
+		if incl := inclForms[si%3]; begin(fmt.Sprintf("s%d/deep", si)) {
+			rn.check(env, u, deepQuery(incl, 10), nil, "", nil, "deep"+incl)
 		}
 		// (3) __type(name:) for every type of the set, types of the model outside it, unknown names
 		tr := c.RNG(2, uint64(si))
@@ -363,6 +373,15 @@ func (rn *runner) variant(m2 *model.Schema, seed uint64, kind string) {
 }
 
 const lightQuery = `{ __schema { types { name kind possibleTypes { name } interfaces { name } } } }`
+
+// mediumQuery: everything of the description but the deep type references.
+const mediumQuery = `{ __schema { queryType { name } mutationType { name } subscriptionType { name }
+  types { kind name description
+    fields(includeDeprecated: true) { name isDeprecated deprecationReason args { name defaultValue type { kind name ofType { kind name } } } type { kind name ofType { kind name } } }
+    inputFields { name defaultValue type { kind name } }
+    interfaces { name } possibleTypes { name kind }
+    enumValues(includeDeprecated: true) { name isDeprecated deprecationReason } }
+  directives { name locations args { name defaultValue } } } }`
 
 func permutations(n int) [][]int {
 	var out [][]int
@@ -487,9 +506,13 @@ func (rn *runner) histories(si int, seed uint64, standalone []string, begin func
 			}
 			c.Feature("history:re-append")
 		}
-		rn.check(env, uFull, deepQuery("(includeDeprecated: true)", 10), nil, "history:", order, "history-final")
-		if pi == 0 {
+		switch {
+		case pi == 0:
 			rn.check(env, uFull, testutil.IntrospectionQuery, nil, "history:", order, "history-final-full")
+		case pi == 1:
+			rn.check(env, uFull, deepQuery("(includeDeprecated: true)", 10), nil, "history:", order, "history-final-deep")
+		default:
+			rn.check(env, uFull, mediumQuery, nil, "history:", order, "history-final")
 		}
 	}
 }
